@@ -32,10 +32,10 @@ type KeyPair struct {
 	Cert *x509.Certificate
 }
 
-func (k *KeyPair) RSA() *rsa.PrivateKey     { r, _ := k.Key.(*rsa.PrivateKey); return r }
-func (k *KeyPair) EC() *ecdsa.PrivateKey    { r, _ := k.Key.(*ecdsa.PrivateKey); return r }
-func (k *KeyPair) CertB64() string          { return base64.StdEncoding.EncodeToString(k.Cert.Raw) }
-func (k *KeyPair) IsRSA() bool              { return k.RSA() != nil }
+func (k *KeyPair) RSA() *rsa.PrivateKey  { r, _ := k.Key.(*rsa.PrivateKey); return r }
+func (k *KeyPair) EC() *ecdsa.PrivateKey { r, _ := k.Key.(*ecdsa.PrivateKey); return r }
+func (k *KeyPair) CertB64() string       { return base64.StdEncoding.EncodeToString(k.Cert.Raw) }
+func (k *KeyPair) IsRSA() bool           { return k.RSA() != nil }
 
 var (
 	poolOnce sync.Once
